@@ -518,7 +518,7 @@ func (vc *VC) oblQuery(o *Obl) string {
 	for _, s := range sks {
 		fmt.Fprintf(&sb, "(declare-const %s %s)\n", s.Op, s.S.String())
 	}
-	if len(sks) > 0 {
+	if len(sks) > 0 || !vc.isBV() {
 		// besides the skolem constants themselves, instantiate at the additive index terms built from them
 		isSk := map[string]bool{}
 		for _, s := range sks {
@@ -581,14 +581,14 @@ func (vc *VC) oblQuery(o *Obl) string {
 				if t.Op == "forall" || t.Op == "exists" {
 					return
 				}
-				if t.Op == "select" && len(t.Args) == 2 && t.Args[1].S.K == KInt && mentions(t.Args[1]) {
+				if t.Op == "select" && len(t.Args) == 2 && t.Args[1].S.K == KInt && (mentions(t.Args[1]) || len(isSk) == 0) {
 					cands := []*Term{t.Args[1]}
 					for c := t.Args[1]; c.Op == "+" && len(c.Args) == 2; c = c.Args[1] {
 						cands = append(cands, c.Args[1])
 					}
 					for _, c := range cands {
 						k := c.String()
-						if len(c.Args) > 0 && !seen[k] && len(extra) < 8 && len(k) < 300 {
+						if _, isLit := intLitVal(c); !isLit && !isSk[c.Op] && !seen[k] && len(extra) < 8 && len(k) < 300 {
 							seen[k] = true
 							extra = append(extra, c)
 						}
